@@ -1,6 +1,8 @@
 """C01 — results always reflect the object's current state (cache coherence)."""
 import warnings
 
+import random as pyrandom
+
 import numpy as np
 
 import catalog
@@ -601,6 +603,7 @@ class SurrAdapter:
         def drawq(d, tau, what):
             def q(o):
                 np.random.seed(12345)
+                pyrandom.seed(12345)      # the twin walk draws from `random`
                 sur = o.twin_surrogates(d, tau, 1.0, min_dist=3)
                 if what == "embedding":
                     return np.asarray(o.embedding).copy()
